@@ -133,26 +133,32 @@ func (p *parser) parseMessageText() (dataItem ast.ItemNode, ok bool) {
 	var length int
 	for i, b := range lengthBytes {
 		shift := (lengthBytesCount - i - 1) * 8
-		length += int(b << shift)
+		length += int(b) << shift
 	}
 	p.pos += lengthBytesCount
 
+	// A declared length can never exceed the bytes that follow it: an item's
+	// payload has that many bytes, and every list element has at least two.
+	if length > len(p.input)-p.pos {
+		return ast.NewEmptyItemNode(), false
+	}
+
 	switch formatCode {
 	case formatCodeList:
-		values := make([]interface{}, length)
+		// Grown while the elements are read, so that the memory used follows
+		// the bytes consumed and not the declared count.
+		values := []interface{}{}
 		for i := 0; i < length; i++ {
-			values[i], ok = p.parseMessageText()
+			value, ok := p.parseMessageText()
 			if !ok {
 				return ast.NewEmptyItemNode(), false
 			}
+			values = append(values, value)
 		}
 		return ast.NewListNode(values...), true
 
 	case formatCodeASCII:
-		var str string
-		for _, v := range p.input[p.pos : p.pos+length] {
-			str += string(v)
-		}
+		str := string(p.input[p.pos : p.pos+length])
 		p.pos += length
 		return ast.NewASCIINode(str), true
 
